@@ -14,6 +14,15 @@ CHECKS = {
  "C08": dict(level="exploration", design="5/C08", technique="differential monitor: serde JSON output vs reference JSON writer built from the documented shape; round trips through value, text and pretty text; JSON vs SCALE agreement",
    text="Serialised JSON of every generated registry equals the Value built by an independent writer from the documented key names / tags / omission rules; keys are checked against the vocabulary; from_value/from_str round trips give back the registry and agree with the SCALE round trip.",
    note="Bit-sequence member names are pinned as released (bit_store_type / bit_order_type); see DESIGN.md C08 note."),
+ "C10": dict(level="exploration", design="5/C10", technique="reference-model monitor: retain vs independent reachability closure + id-renaming check on generated well-formed registries and filters",
+   text="For each generated (well-formed registry, filter) pair the result of retain is checked against a specification-level reference: result dense and closed, map keys == reachability closure over all reference positions incl. type parameters, map bijective onto 0..n, every retained entry == original with ids renamed. Panics/crashes inside retain are violations.",
+   note="Trusted: refretain.rs (written from the statement). The new numbering order is not pinned. Registries up to 300 entries."),
+ "C12": dict(level="exploration", design="5/C12", technique="lock-step list-model monitor over random operation histories + structural invariant hooks (verif_invariants) after every operation",
+   text="Random histories of intern_or_get/get/resolve/elements on Interner<u8>/Interner<String> and register_type/next_type_id/get/finish on PortableRegistryBuilder are executed in lock step with a Vec+linear-search model; every return value is compared; the map/vec bijection hook runs after every operation.",
+   note="Trusted: the list model. Symbols are obtained through get (immutable borrow) and from a larger foreign interner for out-of-range resolution."),
+ "C18": dict(level="exploration", design="5/C18", technique="exhaustive enumeration of inputs over a class-representative alphabet against an explicit identifier DFA; accessor/display monitors",
+   text="All strings up to length 6 (quick) / 7 (thorough) over a 10-symbol class-representative alphabet as single segments, all segment lists up to length 3 over a 40-string pool, Path::new over 40x1649 (ident, module) pairs and seeded replacement tables are run through Path::from_segments/new/new_with_replace and compared with a DFA oracle, including the index of the first offending segment and ident/namespace/display of the result.",
+   note="Exhaustive only within the stated alphabet and length bound; replacement tables are sampled."),
 }
 
 NOT_YET = {}
